@@ -46,7 +46,7 @@ CHECKS.update({
 CHECKS.update({
  "C05": dict(engine="llsym", cat="model_checking", design="4/C05",
    technique="symbolic execution of the inline list.h/slist.h operations (wrapper TU) and src/que.c IR (llsym + z3) against abstract sequences; queue states reached through the API, indices symbolic",
-   text="Every list/slist mutator on rings of up to 4 (5) nodes with every operand position or section (disjoint, non-adjacent for swap/set/mov), and every queue operation after every valid push/pull history of length <= 3 (4) with symbolic indices (any 64-bit value beyond the end; signed for at()), symbolic payload tags; ring integrity, fixed element addresses, pool/ring disjointness checked after every call.",
+   text="Every list/slist mutator on rings of up to 4 (5) nodes with every operand position or section (disjoint, non-adjacent for swap/set/mov), and every queue operation after every valid push/pull history of length <= 5 (quick and thorough; thorough also pairs of operations) with symbolic indices (any 64-bit value beyond the end; signed for at()), symbolic payload tags; ring integrity, fixed element addresses, pool/ring disjointness checked after every call.",
    note=E2NOTE),
 })
 CHECKS.update({
@@ -105,13 +105,13 @@ CHECKS.update({
 CHECKS.update({
  "C20": dict(engine="abi-z3", cat="model_checking", design="4/C20",
    technique="layouts and prototypes extracted from the real compilers on every run (gcc/clang on the headers and src/*.c IR, rustc on a copy of src/lib.rs with an appended offset_of!/size_of probe); z3 decides per field that every byte image is read identically, prototypes compared as machine-type vectors",
-   text="Every #[repr(C)] structure of the binding against the C structure it mirrors (size, alignment, field count/order, per-field offset+width via 'for all byte images' z3 queries, machine type class) and every extern \"C\" declaration against the C definition (arity, parameter and return machine types), for f64 and for the f32 feature (A_SIZE_REAL=4).",
+   text="Every #[repr(C)] structure of the binding against the C structure it mirrors (size, alignment, field count/order, per-field offset+width via 'for all byte images' z3 queries by position, and again by name for every field name both sides share, machine type class) and every extern \"C\" declaration against the C definition (arity, parameter and return machine types), for f64 and for the f32 feature (A_SIZE_REAL=4).",
    note="x86-64 SysV only; integer signedness is not compared; the z3 queries are trivial by design - the work is extracting both layouts from the real compilers each run. Needs rustc (present offline in the image)."),
 })
 CHECKS.update({
  "C11": dict(engine="llsym", cat="model_checking", design="4/C11",
    technique="symbolic execution of src/math.c IR in the fallback configuration (every A_HAVE_* off) and the libm-bound one, a_real as z3 Real, libm calls as fresh reals with contract/monotonicity/parity facts; nlsat decides quadrant tables, exact-branch identities, norm and reduction formulas",
-   text="Partial by design: decides the atan2 quadrant/axis table over all sign combinations, the exact-branch identities of asinh/acosh/atanh/log1p/expm1 (the argument handed to log equals the defining argument; domain and sign handling), r >= 0 and r^2 = sum x^2 for norm2/norm3/norm/norm_, the composition of the coordinate conversions, and sum/sum1/sum2/mean/dot/copy/swap/fill/zero/push/roll (+strided) = their definitions for lengths 0..4 (6) in both configurations. Also the oddness of asinh/atanh and the structure of the asymptotic branches (which libm call receives which argument). NOT decided: accuracy in ulps of any transcendental evaluation, overflow-freedom of the norms.",
+   text="Partial by design: decides the atan2 quadrant/axis table over all sign combinations, the exact-branch identities of asinh/acosh/atanh/log1p/expm1 (the argument handed to log equals the defining argument; domain and sign handling), r >= 0 and r^2 = sum x^2 for norm2/norm3/norm/norm_, the composition of the coordinate conversions, and sum/sum1/sum2/mean/dot/copy/swap/fill/zero/push/roll (+strided) = their definitions for lengths 0..4 (6) in both configurations; mean/mean_ additionally: no arithmetic result of the executed IR leaves the double range when every element is a finite double (range obligation per operation, counterexample confirmed by the native IEEE run). Also the oddness of asinh/atanh and the structure of the asymptotic branches (which libm call receives which argument). NOT decided: accuracy in ulps of any transcendental evaluation, overflow-freedom of the norms.",
    note=E2NOTE + REALNOTE + " No installed solver decides transcendental accuracy; that clause of C11 is outside this check."),
 })
 CHECKS.update({
